@@ -201,6 +201,7 @@ func (o Obs) String() string {
 type IOp struct {
 	Op  string `json:"op"` // First Last SeekGE SeekLT SeekPrefixGE Next Prev
 	Key string `json:"key,omitempty"`
+	kb  []byte
 }
 
 func (o IOp) String() string {
